@@ -770,3 +770,77 @@ func fallbackValueRule(c *core.Check, r *core.Rule) {
 		r.Anchor(fmt.Sprintf("renderValue: restarts with another style (%d found, at least 10 confirmed by reading)", n))
 	}
 }
+
+// staleErrorRule: no error of a previous iteration is tested again.  In a loop, an error variable that is carried
+// from one iteration to the next (a phi at the loop header whose back-edge value can be non-nil) and tested against
+// nil inside the loop makes every iteration after a failing one fail too: the items that follow an invalid one are
+// dropped with it.  Loops where the variable is reset (the back-edge value is nil, or the variable is declared in
+// the body) have no such phi.
+func staleErrorRule(c *core.Check, r *core.Rule, pkgs ...string) {
+	p := c.Prog
+	errT := types.Universe.Lookup("error").Type()
+	loops := 0
+	for _, pkg := range pkgs {
+		for _, fn := range p.FuncsOfPkg(pkg) {
+			if fn.Blocks == nil {
+				continue
+			}
+			for _, l := range core.Loops(fn) {
+				// loops that test an error against nil
+				tests := false
+				for b := range l.Blocks {
+					for _, in := range b.Instrs {
+						if bo, ok := in.(*ssa.BinOp); ok && (bo.Op == token.NEQ || bo.Op == token.EQL) && types.Identical(bo.X.Type(), errT) {
+							tests = true
+						}
+					}
+				}
+				if !tests {
+					continue
+				}
+				loops++
+				bad := ""
+				var at token.Pos
+				for _, in := range l.Header.Instrs {
+					phi, ok := in.(*ssa.Phi)
+					if !ok || !types.Identical(phi.Type(), errT) {
+						continue
+					}
+					carried := false
+					for i, pred := range l.Header.Preds {
+						if !l.Blocks[pred] {
+							continue
+						}
+						if k, ok := phi.Edges[i].(*ssa.Const); ok && k.Value == nil {
+							continue
+						}
+						carried = true
+					}
+					if !carried {
+						continue
+					}
+					for b := range l.Blocks {
+						for _, in2 := range b.Instrs {
+							bo, ok := in2.(*ssa.BinOp)
+							if !ok || (bo.Op != token.NEQ && bo.Op != token.EQL) {
+								continue
+							}
+							if core.DerivesFrom(bo.X, func(v ssa.Value) bool { return v == ssa.Value(phi) }) {
+								bad, at = phi.Comment, bo.Pos()
+							}
+						}
+					}
+				}
+				key := fmt.Sprintf("%s | loop at %s", core.FuncName(fn), p.StmtTextAt(fn, l.Header.Instrs[len(l.Header.Instrs)-1].Pos()))
+				pos := p.Pos(fn.Pos())
+				if at != token.NoPos {
+					pos = p.Pos(at)
+				}
+				r.Cond(bad == "", key, pos, "every error tested in the loop is assigned in the same iteration", "the error variable "+bad+" keeps its value from one iteration to the next and is tested again: after one invalid item every following item of the list is dropped too (`div { &::selection {…} & p {width:10px} }` lost the second nested rule)")
+			}
+		}
+	}
+	if loops == 0 {
+		r.Anchor("loops testing an error in " + strings.Join(pkgs, ", "))
+	}
+}
